@@ -272,6 +272,28 @@ theorem C16_cycles (asev : Inst → Sev) (s : Sess) (hs : Inv s) (hn : NoNoState
   refine ⟨C16_idempotent asev s1 h2.1 h2.2.1 h2.2.2.1 (delBound_of_no_deleted hnd) hnd, ?_⟩
   rw [C16_roundtrip asev s1 h2.1 h2.2.1 h2.2.2.1 (delBound_of_no_deleted hnd), h2.2.2.2]
 
+/-- `n` save/load cycles -/
+def cyclesN (asev : Inst → Sev) : Nat → Sess → Sess
+  | 0, s => s
+  | n + 1, s => readWorking id asev (writeWorking (cyclesN asev n s))
+
+/-- … for EVERY number of further cycles: after the first load, any number of save/load cycles gives the same session
+    (nodes) and every save writes the same entries -/
+theorem C16_cycles_all (asev : Inst → Sev) (s : Sess) (hs : Inv s) (hn : NoNoState s) (hc : ClosedLive s) (hd : DelBound s)
+    (n : Nat) :
+    let s1 := readWorking id asev (writeWorking s)
+    (cyclesN asev n s1).nodes = s1.nodes ∧ writeWorking (cyclesN asev n s1) = writeWorking s1 := by
+  intro s1
+  have hw : ∀ a b : Sess, a.nodes = b.nodes → writeWorking a = writeWorking b := by
+    intro a b h; simp only [writeWorking, h]
+  induction n with
+  | zero => exact ⟨rfl, rfl⟩
+  | succ n ih =>
+    have h1 := C16_cycles asev s hs hn hc hd
+    simp only [cyclesN]
+    rw [ih.2]
+    exact ⟨h1.2, hw _ _ h1.2⟩
+
 /-- ids, types and values are the ones an exchange-file round trip of the surviving population gives -/
 theorem C16_same_as_exchange (asev : Inst → Sev) (s : Sess) (hs : Inv s) (hn : NoNoState s) (hc : ClosedLive s) (hd : DelBound s) :
     (readWorking id asev (writeWorking s)).nodes.map (·.inst) =
@@ -584,9 +606,14 @@ def exS : Sess :=
   ⟨[⟨⟨1, [⟨"T0", [.null, .ref 3]⟩], ""⟩, .incomplete⟩, ⟨⟨2, [⟨"T0", [.tok "5", .null]⟩], ""⟩, .delete⟩,
     ⟨⟨3, [⟨"T1", [.aggr (.cons (.ref 1) .nil)]⟩], ""⟩, .new⟩, ⟨⟨7, [⟨"T1", [.aggr .nil]⟩], ""⟩, .complete⟩], 7⟩
 
-example : Inv exS ∧ NoNoState exS ∧ ClosedLive exS := by
-  refine ⟨⟨by decide, by decide, by decide⟩, ?_, ?_⟩
+example : Inv exS ∧ NoNoState exS ∧ ClosedLive exS ∧ DelBound exS ∧ CommentBound exS := by
+  refine ⟨⟨by decide, by decide, by decide⟩, ?_, ?_, ?_, ?_⟩
   · unfold NoNoState; decide
   · unfold ClosedLive; decide
+  · unfold DelBound; decide
+  · unfold CommentBound; decide
+
+open StepModel.HeaderIds in
+example : notFixed "SECTION_LANGUAGE" ∧ notFixed "FILE_POPULATION" := by unfold notFixed; decide
 
 end StepModel.Session
